@@ -8,13 +8,18 @@ from .. import framework as fw
 from . import inst_common as ic
 
 GEN_SECTIONS = ["Regexes", "Tables", "Unicode"]
+# arithmetic leaf functions whose ASTs are dumped from /repo and proved equal to the hand model (lean/Chartparse/Tie/<X>.lean)
+LEAVES = {'Secs': 'secs'}
 TRUSTED = [
+    "leaf ties: Py.evalBody (embedded Python subset, validated against CPython on random expressions and against the real leaf functions every run) + the AST dump",
     "Lean 4 kernel; axioms ⊆ {propext, Classical.choice, Quot.sound}",
     "hand model of complex_sustain_from_parsed_datas / _refined_sustain_tuple / _longest_sustain / end tick / "
     "last_note_end_timestamp; generated is_5_note table",
     "tied by whole-chart differential execution",
 ]
-ASSUMPTIONS = ["canonical layout inside a tick: each lane at most once; an open line is first and the only non-flag line"]
+ASSUMPTIONS = ["each lane at most once per tick; an open line is the only non-flag line of its tick",
+               "flag line written before a sustained open line: listed known finding `flag-before-open` (the open note's length "
+               "is reported as 0); every other layout is checked"]
 RULE = ("all 31 lane subsets × length patterns {equal, partly zero, all different} (all present/zero/non-zero patterns "
         "exhaustively in thorough), flags, sustains spanning tempo changes, longest sustain not on the last note, empty "
         "tracks; promised: written sustain shape, longest, end tick's tempo-map time (C01 tolerance), last-note-end = max; "
@@ -64,9 +69,56 @@ def extra_checks(ctx, out, cases):
                                   observed=str(last), promised=str(want))
 
 
+HEAD = "[Song]\n{\n  Resolution = 192\n}\n[SyncTrack]\n{\n  0 = TS 4\n  0 = B 120000\n  96 = B 60000\n}\n[Events]\n{\n}\n[ExpertSingle]\n{\n  0 = N 1 0\n"
+
+
+def open_with_flags(ctx, out):
+    """an open note with its flag lines in every position relative to the open line. Promised: the open note's own written
+    length, end tick = tick + length. The layout 'flag line(s) first, then a sustained open line' is the listed known finding
+    `flag-before-open` (key below); anything else observed on these inputs is reported under its own key."""
+    import itertools
+    ins, dif = impl.enums()
+    texts = []
+    for flags in ([5], [6], [5, 6]):
+        for ln in (0, 100, 480):
+            for order in set(itertools.permutations([7] + flags)):
+                body = "".join(f"  48 = N {i} {ln if i == 7 else 0}\n" for i in order)
+                text = HEAD + body + "  700 = N 2 0\n}\n"
+                rp = {"op": "openflags", "text": text, "len": ln}
+                texts.append((text, rp))
+                c, e, _ = impl.parse(text)
+                flag_first = order[0] != 7
+                out.case("O" + fw.h(text), ln > 0, None, tags=["open+flags", "flag-first" if flag_first else "open-first"])
+                if c is None:
+                    out.violation("openflags-" + fw.h(text), f"open note with flags raised {impl.err_name(e)}", rp, observed=impl.err_name(e), promised="parses")
+                    continue
+                n = c.instrument_tracks[ins[0]][dif[3]].note_events[1]
+                obs = [str(n.sustain), n.longest_sustain, n.end_tick]
+                want = [str(ln), ln, 48 + ln]
+                if obs != want:
+                    known = flag_first and ln > 0 and obs == ["0", 0, 48]
+                    out.violation("flag-before-open" if known else "openflags-" + fw.h(text),
+                                  f"open note written with length {ln} after flag line(s) {list(order)}: sustain/longest/end tick {obs}, written {want}",
+                                  rp, observed=obs, promised=want)
+    # the model must agree with the code on every one of these layouts (the finding included)
+    a, b = common.run_charts([(t, None) for t, _ in texts])
+    for (t, rp), x, y in zip(texts, a, b):
+        out.traces += 1
+        if common.framing_proj(x) != common.framing_proj(y) or project_all(x) != project_all(y):
+            out.corr_mismatch("open note with flags", rp, impl=common.short(str(project_all(x))), model=common.short(str(project_all(y))))
+
+
+def project_all(dump):
+    d = gen.parse_dump(dump)
+    if d["err"] is not None:
+        return d["err"]
+    return {k: project(v["notes"]) for k, v in d["tracks"].items()}
+
+
 def slice(ctx: fw.Ctx) -> fw.Outcome:
     out = fw.Outcome(RULE)
     rng = ctx.sub("c03")
+    open_with_flags(ctx, out)
     p = ic.prof(max_tempo=4, garbage=0.0)
     cases = []
     subsets = [[l for l in range(5) if m >> l & 1] for m in range(1, 32)]
@@ -118,6 +170,14 @@ def slice(ctx: fw.Ctx) -> fw.Outcome:
 
 
 def replay(ctx, data):
+    if data.get("op") == "openflags":
+        c, e, _ = impl.parse(data["text"])
+        if c is None:
+            return True, impl.err_name(e)
+        ins, dif = impl.enums()
+        n = c.instrument_tracks[ins[0]][dif[3]].note_events[1]
+        obs = [str(n.sustain), n.longest_sustain, n.end_tick]
+        return obs != [str(data["len"]), data["len"], 48 + data["len"]], obs
     if data.get("extra"):
         return None, "re-run the slice: end-time checks need the generator structure"
     return ic.replay_chart(data, lambda notes: [[n["tick"], n["sus"]] for n in notes])
